@@ -1,5 +1,6 @@
 pub mod btree;
 pub mod crash;
 pub mod seq;
+pub mod tuple;
 pub mod wal;
 pub mod wire;
